@@ -20,6 +20,7 @@ fn main() {
         "gas" => gas_mode::run(seed, n),
         "gov" => gov_mode::run(seed, n),
         "its" => its_mode::run(seed, n),
+        "its-d" => its_mode::run_d(seed, n, args.get(4).and_then(|s| s.parse().ok())),
         "keccak" => { use sha3::{Digest, Keccak256}; println!("{}", hex::encode(Keccak256::digest(&hex::decode(&args[2]).unwrap()))); }
         "abi-file" => abi_mode::run_file(&args[2]),
         _ => { eprintln!("usage: axh <mode> <seed> <n>"); std::process::exit(2); }
